@@ -78,6 +78,9 @@ class SectorStream(StreamWrapper):
     
     def _read(self, size: int)->bytes:
 
+        if size <= 0:
+            return bytes()
+
         remaining_size = size
 
         initial_sector_index    = self.position // self.sector_length
